@@ -50,6 +50,7 @@ import (
 	"time"
 	"verif/harness/hmain"
 	"verif/harness/hx"
+	"verif/harness/pipedrv"
 )
 
 // ---------------------------------------------------------------------------------------------
@@ -834,5 +835,15 @@ func c15EscOracle(raw, esc string) bool {
 func main() {
 	hmain.Run(&hmain.Prop{ID: "C15",
 		Rule: "join-exhaustive: every sequence over {start, continue, other, no-field, time-out} (time-outs only while busy) up to the tier's length (6 quick / 8 thorough) x max_event_size {0,4} x negate; join-any-timeouts: the same alphabet with unconstrained time-outs (len<=5); join-random / join-template: long sequences, real regexps / templates, oracle bits computed by the real matchers; k8s-exhaustive: every chunk sequence over 7 raw fragments + time-out x 5 configs; k8s-random, k8s-adversarial. Non-trivial = the sequence contains at least one run start (join) / one partial chunk (k8s) and has >= 2-3 events; distinct = distinct (sub-model, case) text.",
-		Gen:  c15Gen, Exec: c15Exec})
+		Gen: func(c *hmain.Ctx) {
+			c15Gen(c)
+			// processor-level clauses on the real pipeline: a busy action only sees events of the stream
+			// it holds (or a time-out), runs are flushed by the stream time-out, streams are never merged
+			pipedrv.GenFamilies(c, pipedrv.PipeWhich, []pipedrv.Fam{
+				{Stream: "pipe-hold", Opts: pipedrv.FamHold, N: 50},
+				{Stream: "pipe-two-holders", Opts: pipedrv.FamTwoHolders, N: 30},
+				{Stream: "pipe-discard-before-hold", Opts: pipedrv.FamDiscardBeforeHold, N: 30},
+			})
+		},
+		Exec: pipedrv.WrapExec(c15Exec)})
 }
